@@ -26,6 +26,7 @@ class XMLReader(TextToModel):
         self.name_feature: dict[str, Feature] = {}
 
     def transform(self) -> FeatureModel:
+        self.name_feature = {}  # names seen in this document only
         rootcounter = 1
         tree = ElementTree.parse(self.path)
         xml_root = tree.getroot()
